@@ -1097,13 +1097,13 @@ def suspended_generator_in_a_local_outlives_its_frame():
 
 def generator_shell_is_transparent():
     """C09/C05/C01/C06 (bounded): replay/c09_generator_shell.py -- `yield from proceed.yielding(frame, v)` / `proceed.delegating(frame, it)`
-    behave like `yield v` / `yield from it` under every sequence of <= 6 consumer operations {next, send, throw, close}, the consumer's
+    behave like `yield v` / `yield from it` under every sequence of <= 5 consumer operations {next, send (of a true or a false value), throw (of three kinds of exception), close}, the consumer's
     handlers are current whenever the consumer runs and the activation's own whenever the generator's code runs."""
     import os
     import subprocess
 
     path = os.path.join(os.path.dirname(os.path.dirname(os.path.abspath(__file__))), "c09_generator_shell.py")
-    r = subprocess.run([sys.executable, path, "6"], capture_output=True, text=True, timeout=600)
+    r = subprocess.run([sys.executable, path, "5"], capture_output=True, text=True, timeout=600)
     print(r.stdout.strip()[-600:], r.stderr.strip()[-300:])
     return r.returncode != 0
 
@@ -1125,7 +1125,7 @@ CASES = {
     "completion_error_leaves_probe_active": ["C17", "C05"], "overlay_on_tooled_function_keeps_its_events": ["C05"], "deactivation_inside_a_call_is_undone_at_its_exit": ["C05"],
     "probe_activated_inside_a_call_is_dropped": ["C05"],
     "same_name_constrained_in_two_frames": ["C12"], "bound_method_subselector_drops_record": ["C07"],
-    "private_names_in_method": ["C01"], "generator_shell_is_transparent": ["C09", "C05", "C01", "C06", "C02", "C07"], "probe_silenced_when_an_earlier_generator_finishes": ["C02", "C06"],
+    "private_names_in_method": ["C01"], "generator_shell_is_transparent": ["C09", "C05", "C01", "C06", "C02", "C07", "C03", "C17"], "probe_silenced_when_an_earlier_generator_finishes": ["C02", "C06"],
     "suspended_generator_in_a_local_outlives_its_frame": ["C09"], "slice_bounds_evaluated_once": ["C01", "C02"], "match_statement_under_tooling": ["C01", "C10", "C02"], "provenance_follows_python_scoping": ["C10"], "augmented_attribute_store_is_a_binding": ["C04", "C02"],
     "stale_generator_answer_is_not_remembered": ["C05", "C07", "C02", "C09"],
     "hidden_temporaries_keep_generator_alive": ["C09"], "same_name_at_two_placements": ["C14"],
